@@ -117,19 +117,26 @@ Load(r, b, eq) ==
     /\ LET e == [reac |-> eq.reac, prod |-> eq.prod, kexp |-> Unit(b), kind |-> "base"]
        IN  /\ regs' = [regs EXCEPT ![r] = e]
            /\ cat' = [x \in DOMAIN cat \cup {b} |-> IF x = b THEN [reac |-> eq.reac, prod |-> eq.prod] ELSE cat[x]]
-           /\ out' = [op |-> "reg", r |-> r, val |-> e]
+           /\ out' = [op |-> "reg", r |-> r, val |-> e, all |-> [regs EXCEPT ![r] = e]]
     /\ hist' = Append(hist, [op |-> "Load", r |-> r, b |-> b, reac |-> eq.reac, prod |-> eq.prod])
     /\ UNCHANGED phase
 
 RegOp(name, r, val, extra) ==
     /\ regs' = [regs EXCEPT ![r] = val]
-    /\ out' = [op |-> "reg", r |-> r, val |-> val]
+    /\ out' = [op |-> "reg", r |-> r, val |-> val, all |-> [regs EXCEPT ![r] = val]]  \* operands are not changed
     /\ hist' = Append(hist, extra)
     /\ UNCHANGED <<cat, phase>>
 
 Scale(r, n) ==
     /\ phase = "run" /\ r \in Regs /\ Loaded(regs[r]) /\ n \in Int /\ n # 0
     /\ RegOp("Scale", r, ScaleEq(regs[r], n), [op |-> "Scale", r |-> r, n |-> n])
+
+(* Copy: register r now holds the very same object as register q (aliasing).  Every operation *)
+(* yields a new equilibrium and leaves its operands as they were, so a later operation on one *)
+(* of the two must not show through the other (`all` in the expected observation).             *)
+Copy(r, q) ==
+    /\ phase = "run" /\ r \in Regs /\ q \in Regs /\ r # q /\ Loaded(regs[q])
+    /\ RegOp("Copy", r, regs[q], [op |-> "Copy", r |-> r, q |-> q])
 
 Neg(r) ==
     /\ phase = "run" /\ r \in Regs /\ Loaded(regs[r])
@@ -145,8 +152,8 @@ Sub(r, q) ==
     /\ HasEffect(SubEq(regs[r], regs[q]))
     /\ RegOp("Sub", r, SubEq(regs[r], regs[q]), [op |-> "Sub", r |-> r, q |-> q])
 
-Observe(o, h) ==
-    /\ out' = o /\ hist' = Append(hist, h) /\ UNCHANGED <<regs, cat>>
+Observe(o0, h) ==
+    /\ out' = [x \in DOMAIN o0 \cup {"all"} |-> IF x = "all" THEN regs ELSE o0[x]] /\ hist' = Append(hist, h) /\ UNCHANGED <<regs, cat>>
     /\ phase' = IF TerminalQueries THEN "done" ELSE "run"
 
 (* Eliminate: the helper was asked for multipliers eliminating s from regs[r], regs[q] and    *)
@@ -165,6 +172,12 @@ Cancel(r, q, m) ==
     /\ m \in CancelSet(regs[r], regs[q])
     /\ Observe([op |-> "cancel", m |-> m, allowed |-> SetToSortSeq(CancelSet(regs[r], regs[q]), <)],
                [op |-> "Cancel", r |-> r, q |-> q])
+
+(* exactly one of the two rates has to be given: with both or none the call is refused *)
+AsReactionsRefused(r, which) ==
+    /\ phase = "run" /\ r \in Regs /\ Loaded(regs[r]) /\ which \in {"both", "none"}
+    /\ Observe([op |-> "asrx-refused", which |-> which],
+               [op |-> "AsReactions", r |-> r, which |-> which])
 
 AsReactions(r, which) ==
     /\ phase = "run" /\ r \in Regs /\ Loaded(regs[r]) /\ which \in RateNames
@@ -185,6 +198,7 @@ GenLoad == \E i \in 1..Len(BaseSeq) :
     /\ Load(NLoaded + 1, BaseSeq[i], BaseEq[BaseSeq[i]])
 GenScale == \E r \in Regs, n \in Scales : Room /\ Scale(r, n)
 GenNeg == \E r \in Regs : Room /\ Neg(r)
+GenCopy == \E r \in Regs, q \in Regs : Room /\ "copy" \in Queries /\ Copy(r, q)
 GenAdd == \E r \in Regs, q \in Regs : Room /\ Add(r, q)
 GenSub == \E r \in Regs, q \in Regs : Room /\ Sub(r, q)
 GenEliminate == \E r \in Regs, q \in Regs :
@@ -196,9 +210,10 @@ GenCancel == \E r \in Regs, q \in Regs :
     /\ Room /\ "cancel" \in Queries /\ r # q /\ Loaded(regs[r]) /\ Loaded(regs[q])
     /\ CancelDefined(regs[r], regs[q])
     /\ Cancel(r, q, CHOOSE m \in CancelSet(regs[r], regs[q]) : TRUE)
-GenAsReactions == \E r \in Regs, w \in RateNames : Room /\ "asrx" \in Queries /\ AsReactions(r, w)
+GenAsReactions == \E r \in Regs : Room /\ "asrx" \in Queries /\
+    ((\E w \in RateNames : AsReactions(r, w)) \/ (\E w \in {"both", "none"} : AsReactionsRefused(r, w)))
 
-Next == GenLoad \/ GenScale \/ GenNeg \/ GenAdd \/ GenSub \/ GenEliminate \/ GenCancel \/ GenAsReactions
+Next == GenLoad \/ GenScale \/ GenNeg \/ GenCopy \/ GenAdd \/ GenSub \/ GenEliminate \/ GenCancel \/ GenAsReactions
 
 ------------------------------------------------------------------------------
 (* invariants: the property, stated on the machine *)
@@ -248,6 +263,7 @@ LastOp == hist[Len(hist)]
 Cls == LET h == LastOp IN
     IF h.op = "Scale" THEN (IF h.n < 0 THEN "Scale-neg" ELSE "Scale-pos")
     ELSE IF h.op \in {"Add", "Sub"} THEN h.op \o (IF h.r = h.q THEN "-self" ELSE "")
+    ELSE IF h.op = "AsReactions" THEN (IF h.which \in RateNames THEN "AsReactions" ELSE "AsReactions-refused")
     ELSE IF h.op = "Eliminate" THEN (IF Abs(out.v[1]) = 1 /\ Abs(out.v[2]) = 1 THEN "Eliminate-unit" ELSE "Eliminate")
     ELSE h.op
 CaseRec == [in |-> [hist |-> hist], exp |-> out, cls |-> Cls]
